@@ -16,7 +16,8 @@ RULE = ("caption sets of 1-3 languages x 0-8 captions with generated runs of ide
         "signs up to +-24h biased to the negated start times; (merge; also once more after the merged lists grew in place) reference run-merging on "
         "the model, plus idempotence. Non-trivial: retime drops >=1 caption while keeping >=1 "
         "or uses skew != 1; merge input has a run of >=2 concurrent captions next to a "
-        "non-concurrent one.")
+        "non-concurrent one."
+        ' Sets may start before zero, hold inverted timespans and spacer captions; skews next to 1 and float offsets equal to -(start x skew) are drawn.')
 ASSUMPTIONS = [
     "times are integer microseconds below 24h; float skews are compared with 1e-3 us tolerance; "
     "a new start within that tolerance of 0 is judged only when the exact value of "
@@ -41,6 +42,8 @@ def _set_strategy(runs=True):
             n = draw(st.integers(0, 8))
             cues = []
             t = draw(gen.instants(gen.HOUR))
+            if draw(st.integers(0, 9)) == 0:
+                t = -draw(st.integers(1, 5 * gen.SEC))      # a set that already holds a caption before zero
             i = 0
             while i < n:
                 dur = draw(st.one_of(st.integers(0, 5 * gen.SEC), st.sampled_from([0, 1, 1000])))
